@@ -483,6 +483,8 @@ impl<'l, Data> EventLoop<'l, Data> {
         #[cfg(calloop_verif)]
         use crate::verif::Clock as Instant;
         let now = Instant::now();
+        // synthetic events left over from a dispatch that failed before delivering them are stale
+        self.synthetic_events.clear();
         {
             let mut extra_lifecycle_sources = self
                 .handle
